@@ -491,3 +491,4 @@ def run(chk):
     rule_guard(chk)
     rule_who(chk)
     rule_later(chk)
+    common.rule_forwarding(chk, "C08", keys=[("_output", "Destinations.send"), ("_output", "Destinations.add"), ("_output", "Destinations.remove"), ("_output", "Logger.write"), ("_action", "log_message"), ("_action", "Action.log")])
